@@ -3,6 +3,8 @@
 # Applies the patch in a scratch worktree of /repo (never in /repo itself), runs the
 # check against that tree (VERIF_REPO), removes the worktree.
 P=$1; ID=$2; TIER=${3:-quick}
+# builds against scratch trees go to a build cache of their own (removed by the sweep scripts)
+export GOCACHE=${VERIF_MUTANT_GOCACHE:-/tmp/gocache-mutants}
 W=$(mktemp -d /tmp/mt-XXXXXX)
 git -C /repo worktree add -q --detach "$W" HEAD || exit 9
 ( cd "$W" && (git apply --3way "$P" 2>/dev/null || git apply "$P") ) || { echo "APPLY-FAILED"; git -C /repo worktree remove --force "$W"; exit 8; }
